@@ -43,14 +43,16 @@ type OpFault struct {
 
 type Cut struct {
 	Dir    string `json:"dir"` // "ab" (dialer to acceptor) or "ba"
-	Offset int64  `json:"offset"`
+	Offset int64  `json:"offset"` // counted from the end of the handshake head (first CRLFCRLF) of that direction
+	Abs    bool   `json:"abs,omitempty"` // Offset counts from the first byte of the direction instead
 	Style  int    `json:"style"` // fEOF, fEOFBytes, fErr, fErrBytes, fTimeout, fTimeoutBytes
 }
 
 type Stall struct {
 	Dir   string `json:"dir"`
 	Side  string `json:"side"` // "w": writer not accepted, "r": reader not served
-	At    int64  `json:"at"`   // byte count (accepted for "w", handed for "r") at which the stall starts
+	At    int64  `json:"at"`   // byte count after the handshake head (accepted for "w", handed for "r") at which the stall starts
+	Abs   bool   `json:"abs,omitempty"`
 	DurMs int64  `json:"dur_ms"`
 }
 
@@ -114,6 +116,8 @@ type pipe struct {
 	stalls  []stallState
 	chunks  []tapChunk // (step, end offset) of every accepted chunk
 	nchunks int
+	headEnd int64 // bytes up to and including the first CRLFCRLF (-1 until seen)
+	hdrSt   int
 }
 
 type tapChunk struct {
@@ -318,7 +322,7 @@ func itoa(i int) string {
 
 //go:norace
 func newPipe(capacity int, sink bool) *pipe {
-	p := &pipe{sink: sink}
+	p := &pipe{sink: sink, headEnd: -1}
 	p.ring = theArena.alloc(capacity)
 	p.tap = theArena.alloc(tapMax)
 	p.chunks = arenaSlice[tapChunk](8192)
@@ -443,6 +447,9 @@ func (c *SimConn) Write(p []byte) (int, error) {
 // accept appends p to the pipe (on the calling goroutine) and to the tap.
 func (q *pipe) accept(s *Sim, p []byte) {
 	n := len(p)
+	if q.headPending() {
+		q.scanHead(p)
+	}
 	if !q.tapOvfCheck(n) {
 		copyIn(q.tapSlice(n), p)
 	}
@@ -458,6 +465,68 @@ func (q *pipe) accept(s *Sim, p []byte) {
 
 //go:norace
 func (q *pipe) isSink() bool { return q.sink || q.rclosed }
+
+//go:norace
+func (q *pipe) headPending() bool { return q.headEnd < 0 }
+
+// scanHead looks for the first CRLFCRLF (reads the caller's bytes: instrumented).
+func (q *pipe) scanHead(p []byte) {
+	st := q.getHdrSt()
+	for i, b := range p {
+		switch {
+		case (st == 0 || st == 2) && b == '\r':
+			st++
+		case (st == 1 || st == 3) && b == '\n':
+			st++
+		case b == '\r':
+			st = 1
+		default:
+			st = 0
+		}
+		if st == 4 {
+			q.setHead(int64(i + 1))
+			return
+		}
+	}
+	q.setHdrSt(st)
+}
+
+//go:norace
+func (q *pipe) getHdrSt() int { return q.hdrSt }
+
+//go:norace
+func (q *pipe) setHdrSt(v int) { q.hdrSt = v }
+
+//go:norace
+func (q *pipe) setHead(off int64) { q.headEnd = q.total + off }
+
+// cutAt returns the absolute handed-byte count at which the cut takes effect
+// (a head-relative cut is not armed until the head has been seen).
+//
+//go:norace
+func (q *pipe) cutAt() (int64, bool) {
+	if q.cut == nil {
+		return 0, false
+	}
+	if q.cut.Abs {
+		return q.cut.Offset, true
+	}
+	if q.headEnd < 0 {
+		return 0, false
+	}
+	return q.headEnd + q.cut.Offset, true
+}
+
+//go:norace
+func (q *pipe) stallAt(st *stallState) (int64, bool) {
+	if st.Abs {
+		return st.At, true
+	}
+	if q.headEnd < 0 {
+		return 0, false
+	}
+	return q.headEnd + st.At, true
+}
 
 //go:norace
 func (q *pipe) tapOvfCheck(n int) bool {
@@ -598,7 +667,8 @@ func (q *pipe) stalled(s *Sim, side string, now time.Duration) (bool, time.Durat
 			cnt = q.handed
 		}
 		if !st.started {
-			if cnt < st.At {
+			at, armed := q.stallAt(st)
+			if !armed || cnt < at {
 				continue
 			}
 			st.started = true
@@ -636,7 +706,12 @@ func (q *pipe) untilNextStall(side string) int64 {
 		if side == "r" {
 			cnt = q.handed
 		}
-		if d := st.At - cnt; d > 0 && d < lim {
+		at, armed := q.stallAt(st)
+		if !armed {
+			// the head is still being written: do not run past its end
+			continue
+		}
+		if d := at - cnt; d > 0 && d < lim {
 			lim = d
 		}
 	}
@@ -699,7 +774,7 @@ func (s *Sim) readEnabled(r *parkRec, now time.Duration) (bool, time.Duration) {
 		}
 		return false, wait
 	}
-	if q.cut != nil && q.handed >= q.cut.Offset {
+	if at, ok := q.cutAt(); ok && q.handed >= at {
 		return true, 0
 	}
 	if q.n > 0 || q.wclosed || q.reset {
@@ -839,8 +914,8 @@ func (s *Sim) applyRead(r *parkRec, now time.Duration) {
 	if lim := q.untilNextStall("r"); int64(avail) > lim {
 		avail = int(lim)
 	}
-	if q.cut != nil {
-		left := q.cut.Offset - q.handed
+	if cutOff, ok := q.cutAt(); ok {
+		left := cutOff - q.handed
 		if left <= 0 {
 			r.resErr = cutErr(q.cut.Style)
 			r.fault = q.cut.Style
